@@ -326,6 +326,32 @@ pub fn hyphen_configs() -> Vec<Conv> {
         p.trailing_var_arg = true;
         c.args.push(p);
     }));
+    // settings made on the root only, documented to reach every descendant; used two levels down
+    push("nested:inherited-settings", {
+        let mut c = CmdSpec::new("prog");
+        c.set(Setting::InferLongArgs);
+        c.set(Setting::InferSubcommands);
+        c.set(Setting::DontDelimitTrailingValues);
+        c.set(Setting::ArgsOverrideSelf);
+        c.args.push(ArgSpec::flag("a", Some('a'), Some("alpha")));
+        let mut s = CmdSpec::new("sub");
+        s.args.push(ArgSpec::flag("x", Some('x'), Some("xray")));
+        let mut d = CmdSpec::new("deep");
+        d.args.push(ArgSpec::flag("v", Some('v'), Some("verbose")));
+        let mut o = ArgSpec::opt("o", Some('o'), Some("opt"));
+        o.num_args = None;
+        d.args.push(o);
+        let mut items = ArgSpec::pos("items", 1);
+        items.num_args = Some((1, None));
+        items.delimiter = Some(',');
+        d.args.push(items);
+        let mut leaf = CmdSpec::new("leaf");
+        leaf.args.push(ArgSpec::flag("z", Some('z'), Some("zulu")));
+        d.subs.push(leaf);
+        s.subs.push(d);
+        c.subs.push(s);
+        c
+    });
     push("posorder:low-index-multiple+sub", {
         let mut c = CmdSpec::new("prog");
         c.args.push(ArgSpec::flag("a", Some('a'), Some("alpha")));
@@ -355,6 +381,11 @@ pub fn hyphen_configs() -> Vec<Conv> {
         c
     });
     out
+}
+
+/// tokens for the `nested:` family (the two steps down are given as a fixed prefix by the checkers)
+pub fn nested_alphabet() -> Vec<Vec<u8>> {
+    ["v", "a,b", "--", "-v", "--verb", "--verbose", "--opt=1", "--op", "2", "le", "leaf", "-z", "--zu", "--opt=3"].iter().map(|s| s.as_bytes().to_vec()).collect()
 }
 
 pub fn hyphen_alphabet() -> Vec<Vec<u8>> {
